@@ -66,9 +66,18 @@ def make_case(seed, index, tier):
             result = {field: min(pick(limit[field]), limit[field])}
         return result
     users = []
+    # one request object (`request = supply.borrow(...)`) that several blocks enter, also at
+    # overlapping times
+    template = amounts(supply) if rng.random() < 0.35 else None
+    template_claim = rng.random() < 0.3
     for number in range(rng.randint(2, 8)):
         rounds = []
         for _ in range(rng.randint(1, 3)):
+            if template is not None and rng.random() < 0.6:
+                rounds.append({'offset': rng.choice(GRID), 'amounts': dict(template),
+                               'claim': template_claim, 'hold': rng.choice(GRID),
+                               'shared': True})
+                continue
             amount = amounts(supply)
             round_ = {'offset': rng.choice(GRID), 'amounts': amount,
                       'claim': rng.random() < 0.3, 'hold': rng.choice(GRID)}
@@ -195,6 +204,7 @@ def build_for(case):
             resource = Resources(**scenario['supply'])
         ledger = Ledger(arena, fields)
         top = ledger.pool('top', resource, scenario['supply'])
+        shared = {}
 
         async def use(name, pool, spec, depth):
             res = pool.resource
@@ -206,7 +216,16 @@ def build_for(case):
             arena.log(name, 'acquire-start', pool.name, amounts, spec['claim'])
             try:
                 try:
-                    manager = res.claim(**amounts) if spec['claim'] else res.borrow(**amounts)
+                    if spec.get('shared'):
+                        if 'request' not in shared:
+                            shared['request'] = res.claim(**amounts) if spec['claim'] \
+                                else res.borrow(**amounts)
+                        manager = shared['request']
+                        ledger.stats['shared_request_entries'] = ledger.stats.get(
+                            'shared_request_entries', 0) + 1
+                    else:
+                        manager = res.claim(**amounts) if spec['claim'] \
+                            else res.borrow(**amounts)
                     async with manager as share:
                         pool.blocks[block][0] = 'held'
                         arena.log(name, 'held', pool.name, amounts)
